@@ -394,11 +394,17 @@ func TestC17(t *testing.T) {
 		lookups.Add(1)
 		return c17ResolverNames(addr)
 	}
+	cancelDuringRuns := false // the caller's context is cancelled while the runs are in flight (they still succeed)
 	runPipeline := func(runs []result.TracerouteRun, rdns, skip bool) (*result.Results, error) {
 		cache.Cache.Flush()
 		var next atomic.Int64
-		traceroute.VerifSetRunOnce(func(ctx context.Context, p traceroute.TracerouteParams, port int) (*result.TracerouteRun, error) {
+		ctx, cancel := context.WithCancel(context.Background())
+		defer cancel()
+		traceroute.VerifSetRunOnce(func(_ context.Context, p traceroute.TracerouteParams, port int) (*result.TracerouteRun, error) {
 			k := int(next.Add(1)) - 1
+			if cancelDuringRuns {
+				cancel()
+			}
 			if k >= len(runs) {
 				return nil, errors.New("verif: more runs requested than scripted")
 			}
@@ -406,7 +412,7 @@ func TestC17(t *testing.T) {
 			return &run, nil
 		})
 		tr := traceroute.VerifNewTraceroute(nil)
-		return tr.RunTraceroute(context.Background(), traceroute.TracerouteParams{Hostname: "dest.example.test", Protocol: "udp", MinTTL: 1, MaxTTL: 30,
+		return tr.RunTraceroute(ctx, traceroute.TracerouteParams{Hostname: "dest.example.test", Protocol: "udp", MinTTL: 1, MaxTTL: 30,
 			TracerouteQueries: len(runs), E2eQueries: 0, ReverseDns: rdns, SkipPrivateHops: skip})
 	}
 	tableFor := func(runs []result.TracerouteRun) string {
@@ -442,8 +448,15 @@ func TestC17(t *testing.T) {
 	for i := 0; i < nE2E; i++ {
 		runs := c17GenRuns(rng, pool, true)
 		rdns := i%2 == 0
+		// every fourth case without reverse DNS: the request's context ends while the runs are in flight;
+		// the runs do not look at it and succeed, and what is returned must be redacted all the same
+		cancelDuringRuns = !rdns && i%8 == 1
+		if cancelDuringRuns {
+			rep.Hit("pipeline:context-cancelled-during-runs")
+		}
 		off, err1 := runPipeline(runs, rdns, false)
 		on, err2 := runPipeline(runs, rdns, true)
+		cancelDuringRuns = false
 		if err1 != nil || err2 != nil {
 			t.Fatalf("RunTraceroute with stubbed runs failed: %v %v", err1, err2)
 		}
